@@ -70,12 +70,12 @@ class Entity(ABC):
         self._partially_hidden = False
         self._public = True
 
-        map_attributes(self, **kwargs)
-
         try:
+            map_attributes(self, **kwargs)
             self.workspace.register(self)
-        except RuntimeError:
-            # the identifier is in use: undo the parent assignment made above
+        except Exception:
+            # an attribute was refused or the identifier is in use: undo the
+            # parent assignment made so far
             parent = self._parent
             if parent is not None and hasattr(parent, "_children"):
                 parent._children = [
